@@ -267,6 +267,38 @@ def c06(payload):
                 w1 = gen.wire(k, w['p1'], mid, w['r']); w2 = gen.wire(w['nseg'] - k, mid, w['p2'], w['r'])
                 ss['wires'][i:i + 1] = [w1, w2]
                 cmp(solve(ss), 'splitting wire %d after segment %d' % (i, k))
+            # (e) lumped loads at places of the structure (preferably where a wire meets the ground plane): the same whichever way the
+            #     wires are described
+            if not r['features']['exact_kernel_applied_off_axis']:
+                gp = [p for p in A.pulses if p.ground.any()]
+                pool = (gp if (gp and rng.random() < 0.7) else list(A.pulses))
+                lpos = [(np.array(p.point, dtype=float), complex(rng.uniform(10, 150), rng.uniform(-80, 80))) for p in rng.sample(pool, min(len(pool), rng.choice([1, 2])))]
+                def solve_lumped(sp):
+                    mm = gen.build(dict(sp, sources=[], loads=[]))
+                    def at(pt):
+                        c_ = [p for p in mm.pulses if np.linalg.norm(np.array(p.point, dtype=float) - pt) < 1e-6 * (1 + np.abs(pt).max())]
+                        assert len(c_) == 1, 'position not unique'
+                        return c_[0]
+                    p = at(fpt)
+                    sgn = 1.0 if np.dot(np.array(p.segs[0].dirvec, dtype=float), fdir) > 0 else -1.0
+                    sp2 = copy.deepcopy(sp); sp2['sources'] = [dict(pulse=int(p.idx), tag=None, v=[sgn, 0.0])]
+                    sp2['loads'] = [dict(kind='imp', z=[z_.real, z_.imag], attach=[[int(at(pt).idx)]]) for pt, z_ in lpos]
+                    mm = gen.build(sp2); mm.compute()
+                    return mm
+                AE = solve_lumped(spec); ZE = AE.sources[0].impedance
+                conde = float(np.linalg.cond(AE.Z)); tole = _tol(conde)
+                if tole is not None:
+                    sre = copy.deepcopy(spec)
+                    for w in sre['wires']:
+                        if rng.random() < 0.6:
+                            w['p1'], w['p2'] = w['p2'], w['p1']
+                            if w.get('taper') and w['taper'][0] in (1, 2):
+                                w['taper'] = [3 - w['taper'][0]] + list(w['taper'][1:])
+                    rng.shuffle(sre['wires'])
+                    ZB = solve_lumped(sre).sources[0].impedance
+                    if abs(ZB - ZE) > tole * abs(ZE):
+                        bad.append('with lumped loads at %r: reversing and reordering the wires changes the feed impedance %r -> %r (cond %.3g)'
+                                   % ([[round(float(x), 4) for x in pt] for pt, _ in lpos], ZE, ZB, conde))
             # (d) the same conductors with skin-effect loads on some of them (each with its own conductivity): the description
             #     (order, direction of the wires, order of the load options) still does not matter
             if len(spec['wires']) >= 2 and not r['features']['exact_kernel_applied_off_axis']:       # (there the unloaded antenna already depends on the order)
